@@ -425,6 +425,21 @@ func init() {
 				c.Count("nontrivial")
 			}
 		}
+		// chains of extends with defaults: the expected output is computed by the generator
+		for i := 0; i < 60; i++ {
+			cs := chainCase(c.Rng.Int63())
+			c.Count("evaluations")
+			c.Count("extends-chains")
+			for _, f := range cs.Feats {
+				c.Count("feat:" + f)
+			}
+			if o := runTemplate(cs); o.String() != "ok|"+*cs.Expect {
+				c.Fail("extends-chain-differs", map[string]any{"name": cs.Name, "main": cs.Main, "files": cs.Files, "expect": *cs.Expect, "template": o.String(), "signature": "extends-chain-differs"})
+				break
+			} else {
+				c.Count("nontrivial")
+			}
+		}
 		n := c.N
 		off := parseOff("")
 		var sets []*Set
